@@ -388,8 +388,22 @@ impl Check for C06 {
             let text = if fam == 1 { super::scale::programs()[idx as usize].clone() } else { key_programs()[idx as usize].clone() };
             ctx.case_text(&text);
             let opts = JudgeOpts { limits: Limits { steps: 3_000_000, depth: 150 }, ..Default::default() };
-            if let (Judged::Agree | Judged::Violation, _) = judge(&text, b"", &opts, ctx) {
+            let judged = judge(&text, b"", &opts, ctx).0;
+            if let Judged::Agree | Judged::Violation = judged {
                 ctx.nontrivial();
+            }
+            // where the reference leaves the subscript's meaning open (fractional, negative, NaN ...), one law
+            // still holds: what was stored under a subscript is what is read back under the same subscript
+            if fam == 2 && judged == Judged::Skipped && text.contains("let w at y be 9\nsay w\nsay w at y\n") {
+                let r = crate::subject::exec_text(&text, b"");
+                if r.parse_error.is_none() && r.result.is_ok() {
+                    let out = r.stdout_str();
+                    let lines: Vec<&str> = out.lines().collect();
+                    ctx.count("read_after_write_law_checked");
+                    if lines.len() < 2 || lines[1] != "9" {
+                        ctx.violation("wrong-result", format!("a value stored with `let w at y be 9` is not read back by `say w at y` (printed {:?}) — program {:?}", lines.get(1), text));
+                    }
+                }
             }
             return;
         }
